@@ -10,12 +10,17 @@
      - move: position := end of the last driven link, route := the remaining part, odometer += traversal distance, one move
        event with exactly that distance; an empty driven part only clears the route; a vehicle without the energy for the
        movement stops where it is (C04) — `move_outcome`.
-   The speed clause for a split link depends on where h3 snaps p (oracle `mid`, measured by the harness) and progress/arrival
-   timing over journeys is decided by correspondence + monitor c06_motion (known finding: full battery on arrival). *)
+     - arrival (C06_arrived_vehicle_leaves, Proofs/Arrive.v): a travelling vehicle whose route is exhausted when its update
+       comes takes the default transition and, when the update goes through, is afterwards in an activity of another kind
+       (Idle / ServicingTrip / ChargingStation / ChargeQueueing / ReserveBase / OutOfService) — it leaves the travelling
+       activity within one step of arriving.
+   The speed clause for a split link depends on where h3 snaps p (oracle `mid`, measured by the harness); that the update of an
+   arrived vehicle is not refused for ever is decided by correspondence + monitor c06_motion (the former finding "full battery on
+   arrival" is repaired: fix 6bab96c). *)
 From Hive.Base Require Import Prelude.
 From Hive.Model Require Import Types KernelBase SimOps States Step.
 From Hive.Gen Require Import Kernels.
-From Hive.Proofs Require Import Traverse Move Walk.
+From Hive.Proofs Require Import Traverse Move Walk VehFrame Arrive.
 Local Open Scope Z_scope.
 
 Theorem C06_link_degenerate : forall gc mid link t, l_start link = l_end link ->
@@ -61,3 +66,8 @@ Print Assumptions C06_traverse_keeps_walk. Print Assumptions C06_progress. Print
 Print Assumptions C06_link_degenerate. Print Assumptions C06_link_full. Print Assumptions C06_link_split.
 Print Assumptions C06_split_point_on_link. Print Assumptions C06_whole_second_rounding. Print Assumptions C06_route_traversal.
 Print Assumptions C06_move. Print Assumptions C06_odometer.
+Theorem C06_arrived_vehicle_leaves : forall env s vid v s', vkeys s -> find vid (vehicles s) = Some v -> state_route (v_state v) = Some [] ->
+  vs_update env vid (v_state v) s = Ok s' ->
+  exists w, find vid (vehicles s') = Some w /\ state_kind (v_state w) <> state_kind (v_state v).
+Proof. exact arrived_vehicle_leaves. Qed.
+Print Assumptions C06_arrived_vehicle_leaves.
